@@ -10,7 +10,7 @@
 (* oracle (Newton start did not verify = machinery), closed_form (1 um),   *)
 (* angle_classes, lon_range, closure.                                      *)
 (***************************************************************************)
-EXTENDS Cart, Json, IOUtils, Sequences, TLC
+EXTENDS Cart, Ellipsoids, Json, IOUtils, Sequences, TLC
 
 Data   == JsonDeserialize(IOEnv.TRACE_FILE)
 Traces == Data.traces
@@ -29,6 +29,7 @@ FwdClause(ev) ==
            s == Rat(ev.slat[1], ev.slat[3])
            rs == RS(e2, s, FromJ(ev.r0))
        IN IF ~(FlatteningOK(invf, f) /\ RSOK(e2, s, rs)) THEN "oracle"
+          ELSE IF ~ConstantsOK(ev.ell, a, invf) THEN "shipped_ellipsoid_constants"     \* "that ellipsoid": the published figures
           ELSE IF ~Close3(Vec(ev.out), Forward(a, f, rs, ev.slat, ev.slon, FromJ(ev.h)), Um1) THEN "closed_form"
           ELSE IF ~ev.same THEN "angle_classes"
           ELSE ""
